@@ -25,4 +25,4 @@ Extraction "model.ml"
   ClientReqRep.crun ClientReqRep.c_done
   TopicName.try_from TopicName.create TopicName.is_valid TopicName.print TopicSpec.name_ok
   ServerRun.ff ServerRun.client_first_reply ServerRun.prog_keeps_discipline ServerRun.stall_predict Server.lookup
-  TlsRun.matrix.
+  TlsRun.matrix TlsRun.matrix_trust.
